@@ -213,19 +213,26 @@ func init() {
 	reg("time.Now", func(in *Interp, c *Frame, fn *ssa.Function, a []Value) Value { return in.zero(fn.Signature.Results().At(0).Type()) })
 
 	// ---------- sourcegraph/conc: goroutines run to completion at the spawn point ----------
-	reg("(*github.com/sourcegraph/conc.WaitGroup).Go", func(in *Interp, c *Frame, fn *ssa.Function, a []Value) Value {
+	// (default; a harness that calls vx.RealPools() gets the library code itself, executed on the scheduler)
+	inlineOrReal := func(inline Intercept) Intercept {
+		return func(in *Interp, c *Frame, fn *ssa.Function, a []Value) Value {
+			if in.realPools && fn.Blocks != nil {
+				return in.callFunction(fn, a, c)
+			}
+			return inline(in, c, fn, a)
+		}
+	}
+	runNow := func(in *Interp, c *Frame, fn *ssa.Function, a []Value) Value {
 		in.callClosure(a[1].(*Closure), nil, c)
 		return nil
-	})
-	reg("(*github.com/sourcegraph/conc.WaitGroup).Wait", nop)
+	}
+	reg("(*github.com/sourcegraph/conc.WaitGroup).Go", inlineOrReal(runNow))
+	reg("(*github.com/sourcegraph/conc.WaitGroup).Wait", inlineOrReal(nop))
 	// pool.Pool: every task runs to completion when it is submitted (ErrorPool / ResultPool /
 	// ContextPool are thin wrappers that funnel through Pool.Go and Pool.Wait and run from source)
-	reg("(*github.com/sourcegraph/conc/pool.Pool).Go", func(in *Interp, c *Frame, fn *ssa.Function, a []Value) Value {
-		in.callClosure(a[1].(*Closure), nil, c)
-		return nil
-	})
-	reg("(*github.com/sourcegraph/conc/pool.Pool).Wait", nop)
-	reg("(*github.com/sourcegraph/conc.WaitGroup).WaitAndRecover", nop)
+	reg("(*github.com/sourcegraph/conc/pool.Pool).Go", inlineOrReal(runNow))
+	reg("(*github.com/sourcegraph/conc/pool.Pool).Wait", inlineOrReal(nop))
+	reg("(*github.com/sourcegraph/conc.WaitGroup).WaitAndRecover", inlineOrReal(nop))
 
 	// sort.Slice / SliceStable / sort.SliceIsSorted: insertion sort driven by the caller's less
 	// (reflect-based swapper in the library); the comparison results fork like any branch
